@@ -457,11 +457,28 @@ def failReset (H : Hashes) (k : Nat) : Cache (Nat × Nat) → Nat → Cache (Nat
       let r := c.compareAndDelete H k cur
       if r.2 then (r.1, true) else failReset H k r.1 f
 
+/-- `ResetMatching` (ResetQuestion, then ResetZone on every ancestor zone) and
+`PurgeQuestion` (sweep, then CompareAndDelete of every match): a reset of each
+listed table key in turn; returns the number of states deleted. -/
+def failResetAll (H : Hashes) : Cache (Nat × Nat) → List Nat → Cache (Nat × Nat) × Nat
+  | c, [] => (c, 0)
+  | c, k :: ks =>
+    let r := c.failReset H k 4
+    let rest := failResetAll H r.1 ks
+    (rest.1, (if r.2 then 1 else 0) + rest.2)
+
 /-- `FailureCache.Lookup` (exact question): an entry is a hit only while active -/
 def failLookup (H : Hashes) (now : Nat) (c : Cache (Nat × Nat)) (k : Nat) : Option (Nat × Nat) :=
   match c.get H k with
   | some e => if now < e.2 then some e else none
   | none => none
+
+/-- `FailureCache.Lookup`: the exact question if active, otherwise the closest
+active ancestor-zone state (`zs`: zone keys from the name itself up to the root). -/
+def failLookupZ (H : Hashes) (now : Nat) (c : Cache (Nat × Nat)) (qk : Nat) (zs : List Nat) : Option (Nat × Nat) :=
+  match c.failLookup H now qk with
+  | some e => some e
+  | none => zs.findSome? (fun z => c.failLookup H now z)
 
 end Cache
 
